@@ -1,5 +1,65 @@
-//! C19 harness (stub: not implemented yet).
+//! probe
+use radicle::identity::doc::{Doc, RawDoc, Visibility};
 fn main() {
-    eprintln!("C19: harness not implemented");
-    std::process::exit(3);
+    let did = "did:key:z6MksFqXN3Yhqk8pTJdUGLwATkRfQvwZXPqR2qMEhbS9wzpT";
+    let did2 = "did:key:z6MktaNvN1KVFMkSRAiN4qK5yvX1zuEEaseeX5sffhzPZRZW";
+    let p = r#"{"xyz.radicle.project":{"name":"a","description":"","defaultBranch":"m"}}"#;
+    let tests: Vec<String> = vec![
+        format!(r#"{{"payload":{p},"delegates":["{did}"],"threshold":1}}"#),
+        format!(r#"[1,{p},["{did}"],1]"#),
+        format!(r#"[1,{p},["{did}"],1,{{"type":"public"}}]"#),
+        format!(r#"[1,{p},["{did}"]]"#),
+        format!(r#"[{p},["{did}"],1]"#),
+        format!(r#"{{"payload":{p},"delegates":["{did}"],"threshold":1,"threshold":1}}"#),
+        format!(r#"{{"payload":{p},"delegates":["{did}"],"threshold":1,"foo":1,"foo":2}}"#),
+        format!(r#"{{"payload":{p},"delegates":["{did}"],"threshold":1.0}}"#),
+        format!(r#"{{"payload":{p},"delegates":["{did}"],"threshold":1,"version":0}}"#),
+        format!(r#"{{"payload":{p},"delegates":["{did}"],"threshold":1,"version":2}}"#),
+        format!(r#"{{"payload":{p},"delegates":["{did}"],"threshold":1,"version":1}}"#),
+        format!(r#"{{"payload":{p},"delegates":["{did}"],"threshold":1,"version":null}}"#),
+        format!(r#"{{"payload":{p},"delegates":["{did}"],"threshold":1,"visibility":null}}"#),
+        format!(r#"{{"payload":{p},"delegates":["{did}"],"threshold":1,"visibility":"public"}}"#),
+        format!(r#"{{"payload":{p},"delegates":["{did}"],"threshold":1,"visibility":{{"type":"public","allow":["{did}"]}}}}"#),
+        format!(r#"{{"payload":{p},"delegates":["{did}"],"threshold":1,"visibility":{{"type":"public","x":1}}}}"#),
+        format!(r#"{{"payload":{p},"delegates":["{did}"],"threshold":1,"visibility":{{"type":"private","x":1}}}}"#),
+        format!(r#"{{"payload":{p},"delegates":["{did}"],"threshold":1,"visibility":{{"type":"private","allow":["{did}","{did}","{did2}"]}}}}"#),
+        format!(r#"{{"payload":{p},"delegates":["{did}"],"threshold":1,"visibility":{{"type":"private","allow":[],"allow":[]}}}}"#),
+        format!(r#"{{"payload":{p},"delegates":["{did}"],"threshold":1,"visibility":{{"type":"private","type":"public"}}}}"#),
+        format!(r#"{{"payload":{p},"delegates":["{did}"],"threshold":1,"visibility":{{"allow":[]}}}}"#),
+        format!(r#"{{"payload":{p},"delegates":["{did}"],"threshold":1,"visibility":{{"allow":[],"type":"private"}}}}"#),
+        format!(r#"{{"payload":{p},"delegates":["{did}"],"threshold":1,"visibility":["private"]}}"#),
+        format!(r#"{{"payload":{p},"delegates":["{did}"],"threshold":1,"visibility":["private",["{did}"]]}}"#),
+        format!(r#"{{"payload":{p},"delegates":["{did}"],"threshold":1,"visibility":["public"]}}"#),
+        format!(r#"{{"payload":{p},"delegates":["{did}"],"threshold":1,"visibility":{{"type":"Private"}}}}"#),
+        format!(r#"{{"payload":{{}},"delegates":["{did}"],"threshold":1}}"#),
+        format!(r#"{{"payload":[],"delegates":["{did}"],"threshold":1}}"#),
+        format!(r#"{{"payload":{{"a":1,"a":2}},"delegates":["{did}"],"threshold":1}}"#),
+        format!(r#"{{"payload":{{"a.b":1,"a.b":2.5}},"delegates":["{did}"],"threshold":1}}"#),
+        format!(r#"{{"payload":{{"A.b-c.d":1}},"delegates":["{did}"],"threshold":1}}"#),
+        format!(r#"{{"payload":{{"a.b":{{"name":"é"}}}},"delegates":["{did}"],"threshold":1}}"#),
+        format!(r#"{{"payload":{{"a.b":{{"é":1,"é":2}}}},"delegates":["{did}"],"threshold":1}}"#),
+        format!(r#"{{"payload":{p},"delegates":"{did}","threshold":1}}"#),
+        format!(r#"{{"payload":{p},"delegates":[],"threshold":0}}"#),
+        format!(r#"{{"payload":{p},"delegates":["{did}"],"threshold":18446744073709551615}}"#),
+        format!(r#"{{"payload":{p},"delegates":["{did}"],"threshold":18446744073709551616}}"#),
+        format!(r#"{{"payload":{p},"delegates":["{did}"],"threshold":-1}}"#),
+        format!(r#"{{"payload":{p},"delegates":["{did}"],"threshold":1,"version":4294967296}}"#),
+        format!(r#" {{"payload":{p},"delegates":["{did}"],"threshold":1}} x"#),
+    ];
+    for t in tests {
+        let a = serde_json::from_str::<Doc>(&t);
+        let b = RawDoc::from_json(t.as_bytes()).and_then(|r| r.verified());
+        println!("{t}\n   Doc: {:?}\n   Raw: {:?}", a.as_ref().map(|_| "ok").map_err(|e| e.to_string()), b.as_ref().map(|_| "ok").map_err(|e| e.to_string()));
+        if let Ok(d) = b {
+            match d.encode() {
+                Ok((oid, bytes)) => {
+                    println!("   enc: {oid} {}", String::from_utf8_lossy(&bytes));
+                    let d2 = RawDoc::from_json(&bytes).and_then(|r| r.verified());
+                    println!("   rt-equal: {:?}", d2.map(|d2| d2 == d).map_err(|e| e.to_string()));
+                }
+                Err(e) => println!("   enc-err: {e}"),
+            }
+        }
+    }
+    let _ = Visibility::Public;
 }
